@@ -6,6 +6,7 @@ from engine import Op, set_mode
 from props import c01
 
 PROP = "C05"
+QUICK_BOOST = 2
 LEAN_MODULES = ["IsoDT.Props.C05", "IsoDT.Props.C05q"]
 RULE = ("time points at month ends, leap days, day 365/366, week 52/53 (3 representations, any offset) x "
         "month / year counts of either sign, alone and mixed with exact units; thorough: exhaustive over "
